@@ -403,6 +403,8 @@ func (s *Skiplist) Search(key []byte) kv.ValueStruct {
 
 	valOffset, valSize := n.getValueOffset()
 	vs := s.arena.getVal(valOffset, valSize)
+	// The version of the entry that was found, not of the key that was asked for.
+	vs.Version = kv.ParseTs(nextKey)
 	return vs
 }
 
